@@ -90,7 +90,7 @@ theorem stateAt_spec {n : Node} (g : C22.Good n) (pt : Pt) :
       simp [swapRun, swapSteps, List.take, List.foldl, swapStep]
     show DurInv (swapRun _ _ _) ∧ (swapRun _ _ _).peersFile = none ∧ truth (swapRun _ _ _) = d
     rw [e]
-    refine ⟨⟨ha.snap_le, ha.nosnap, fun _ hok => by cases hok⟩, q.nopeers, ?_⟩
+    refine ⟨⟨ha.snap_le, ha.nosnap, fun _ hok => Bool.noConfusion hok, ha.fp_le⟩, q.nopeers, ?_⟩
     show truth (appendEntry n (.load d)) = d
     rw [truth_appendEntry n _ h]; rfl
   | snapStep k =>
@@ -105,11 +105,11 @@ theorem stateAt_spec {n : Node} (g : C22.Good n) (pt : Pt) :
     exact ⟨durInv_appendEntry h .noop, q.nopeers, by show truth (appendEntry n .noop) = _; rw [truth_appendEntry n _ h, q.live]; rfl⟩
   | bootSwapped d =>
     obtain ⟨q1, h1, t1⟩ := quiet_write h q .noop
-    exact ⟨⟨h1.snap_le, h1.nosnap, fun hf => by cases hf⟩, q1.nopeers, by
+    exact ⟨⟨h1.snap_le, h1.nosnap, fun hf => Bool.noConfusion hf, fun hf => Bool.noConfusion hf⟩, q1.nopeers, by
       show truth (write n .noop) = n.live; rw [t1, q.live]; rfl⟩
   | bootSnapStep d k =>
     obtain ⟨q1, h1, t1⟩ := quiet_write h q .noop
-    have h2 : DurInv (bootSwap n d) := ⟨h1.snap_le, h1.nosnap, fun hf => by cases hf⟩
+    have h2 : DurInv (bootSwap n d) := ⟨h1.snap_le, h1.nosnap, fun hf => Bool.noConfusion hf, fun hf => Bool.noConfusion hf⟩
     have p2 : SnapPre (bootSwap n d) := ⟨q1.up, q1.applied, q1.notmp, q1.fileok, q1.nopeers⟩
     obtain ⟨a, b, c⟩ := snapPrefix_spec h2 p2 k
     refine ⟨a, b, ?_⟩
@@ -163,7 +163,7 @@ theorem fast_and_rebuild_paths_agree (hist : List C22.Op) (pt : Pt) :
   have g := C22.good_run C22.good_init hist
   obtain ⟨hd, hp, _⟩ := stateAt_spec g pt
   have hc := durInv_crash hd
-  have hc' : DurInv { m with fp := false } := ⟨hc.snap_le, hc.nosnap, fun hf => by cases hf⟩
+  have hc' : DurInv { m with fp := false } := ⟨hc.snap_le, hc.nosnap, fun hf => Bool.noConfusion hf, fun hf => Bool.noConfusion hf⟩
   have hp' : m.peersFile = none := hp
   rw [(open_truth hc hp').1, (open_truth hc' hp').1]; rfl
 
@@ -181,7 +181,7 @@ theorem partialOpen_spec {n : Node} (h : DurInv n) (k : Nat) :
   cases hs : n.snap with
   | none =>
     unfold partialOpen; rw [hs]; simp only
-    split <;> exact ⟨⟨h.snap_le, h.nosnap, fun hf => by cases hf⟩, rfl, rfl⟩
+    split <;> exact ⟨⟨h.snap_le, h.nosnap, fun hf => Bool.noConfusion hf, fun hf => Bool.noConfusion hf⟩, rfl, rfl⟩
   | some p =>
     obtain ⟨i, d⟩ := p
     have hp := durInv_openPrep h
@@ -195,15 +195,26 @@ theorem partialOpen_spec {n : Node} (h : DurInv n) (k : Nat) :
     | 2 =>
       have e : partialOpen n 2 = { openPrep n with fp := false } := by
         simp [partialOpen, hs, restoreSteps, List.take, List.foldl, restoreStep]
-      rw [e]; exact ⟨⟨h.snap_le, h.nosnap, fun hf => by cases hf⟩, rfl, rfl⟩
+      rw [e]; exact ⟨⟨h.snap_le, h.nosnap, fun hf => Bool.noConfusion hf, fun hf => Bool.noConfusion hf⟩, rfl, rfl⟩
     | 3 =>
       have e : partialOpen n 3 = { openPrep n with fp := false, dbFile := d, dbFileOk := true, live := d, applied := i } := by
         simp [partialOpen, hs, restoreSteps, List.take, List.foldl, restoreStep]
-      rw [e]; exact ⟨⟨h.snap_le, h.nosnap, fun hf => by cases hf⟩, rfl, rfl⟩
+      rw [e]; exact ⟨⟨h.snap_le, h.nosnap, fun hf => Bool.noConfusion hf, fun hf => Bool.noConfusion hf⟩, rfl, rfl⟩
     | (k + 4) =>
-      have e : partialOpen n (k + 4) = { openPrep n with fp := true, dbFile := d, dbFileOk := true, live := d, applied := i } := by
-        simp [partialOpen, hs, restoreSteps, List.take, List.foldl, restoreStep]
-      rw [e]; exact ⟨⟨h.snap_le, h.nosnap, fun _ _ => ⟨i, d, hs, rfl⟩⟩, rfl, rfl⟩
+      have e : partialOpen n (k + 4) = { openPrep n with fp := true, fpIdx := i, dbFile := d, dbFileOk := true, live := d, applied := i } := by
+        simp [partialOpen, hs, restoreSteps, List.take, List.foldl, restoreStep, newestIdx, openPrep]
+      rw [e]
+      refine ⟨⟨h.snap_le, h.nosnap, ?_, ?_⟩, rfl, rfl⟩
+      · intro _ _ j e2 hs2 _
+        have hs2' : n.snap = some (j, e2) := hs2
+        rw [hs] at hs2'
+        simp only [Option.some.injEq, Prod.mk.injEq] at hs2'
+        exact hs2'.2
+      · intro _
+        show i ≤ newestIdx { openPrep n with fp := true, fpIdx := i, dbFile := d, dbFileOk := true, live := d, applied := i }
+        have : newestIdx { openPrep n with fp := true, fpIdx := i, dbFile := d, dbFileOk := true, live := d, applied := i } = i := by
+          simp [newestIdx, openPrep, hs]
+        omega
 
 /-- recoveries interrupted at the given steps, one after the other -/
 def interrupted (n : Node) : List Nat → Node
@@ -229,6 +240,79 @@ theorem restart_exact_after_interrupted_recoveries (hist : List C22.Op) (pt : Pt
   obtain ⟨hd, hp, ht⟩ := stateAt_spec g pt
   obtain ⟨a, b, c⟩ := interrupted_spec (durInv_crash hd) (by show (stateAt n pt).peersFile = none; exact hp) ks
   rw [(open_truth a c).1, b, truth_crash, ht]
+
+/-! ### a snapshot received from the leader, and a crash before `FSM.Restore` ran
+
+raft closes the sink — the received snapshot is the newest in the store — and only then calls
+`fsmRestore`, whose second step removes the marker. A node that stops in between has the OLD
+database file, a marker that still matches that file, and a NEWER newest snapshot. The marker
+records the index of the snapshot it was written for (fix fa61aff) and `Open` takes the fast
+path only if that is still the newest one. -/
+
+/-- what raft guarantees about a snapshot it installs: strictly newer than the node's newest
+one, and within the cluster's committed history -/
+structure InstallPre (n : Node) (hist' : List Cmd) (j : Nat) : Prop where
+  newer : newestIdx n < j
+  le    : j ≤ hist'.length
+
+theorem durInv_installSinkClosed {n : Node} (h : DurInv n) (hist' : List Cmd) (j : Nat) (d : Db)
+    (p : InstallPre n hist' j) : DurInv (installSinkClosed n hist' j d) := by
+  refine ⟨?_, ?_, ?_, ?_⟩
+  · intro i e hs
+    have hs' : some (j, d) = some (i, e) := hs
+    simp only [Option.some.injEq, Prod.mk.injEq] at hs'
+    obtain ⟨rfl, rfl⟩ := hs'
+    exact ⟨p.le, Nat.le_refl _⟩
+  · intro hs; cases hs
+  · intro hf _ i e hs hi
+    have hs' : some (j, d) = some (i, e) := hs
+    simp only [Option.some.injEq, Prod.mk.injEq] at hs'
+    obtain ⟨rfl, rfl⟩ := hs'
+    have h1 : n.fpIdx ≤ newestIdx n := h.fp_le hf
+    have h2 : n.fpIdx = j := hi
+    have := p.newer
+    omega
+  · intro hf
+    have h1 : n.fpIdx ≤ newestIdx n := h.fp_le hf
+    show n.fpIdx ≤ j
+    have := p.newer
+    omega
+
+/-- the durable states between the sink's close and the end of `fsmRestore`: `k` of its steps done
+(`k = 0`: the sink is closed, `FSM.Restore` has not run) -/
+def installPrefix (n : Node) (hist' : List Cmd) (j : Nat) (d : Db) (k : Nat) : Node :=
+  partialOpen (installSinkClosed n hist' j d) k
+
+/-- **restart_exact_after_install_crash**: after ANY history, a snapshot from the leader is
+installed in the store and the node dies after ANY number of `fsmRestore`'s steps (none
+included), then any number of interrupted recoveries: the restarted node holds exactly the
+received snapshot's database plus the log after it — never the old file under the new index. -/
+theorem restart_exact_after_install_crash (hist : List C22.Op) (hist' : List Cmd) (j : Nat) (d : Db)
+    (p : InstallPre (C22.run {} hist) hist' j) (k : Nat) (ks : List Nat) :
+    (openNode (interrupted (crash (installPrefix (C22.run {} hist) hist' j d k)) ks)).live = replay d (hist'.drop j) := by
+  have g := C22.good_run C22.good_init hist
+  have hd := durInv_installSinkClosed g.1 hist' j d p
+  obtain ⟨a, b, c⟩ := partialOpen_spec hd k
+  unfold installPrefix
+  have hp : (crash (partialOpen (installSinkClosed (C22.run {} hist) hist' j d) k)).peersFile = none := by
+    show (partialOpen _ k).peersFile = none
+    rw [c]; exact g.2.nopeers
+  obtain ⟨a', b', c'⟩ := interrupted_spec (durInv_crash a) hp ks
+  rw [(open_truth a' c').1, b', truth_crash]
+  show truth (partialOpen _ k) = _
+  rw [b]; rfl
+
+/-- the index in the marker is needed: the same crash with a marker that claims the new index
+(= a marker without the check) comes up on the fast path with the OLD file under the NEW
+snapshot's index, and the entries in between are never applied -/
+theorem stale_marker_witness :
+    let n := C22.run {} [.write (.exec false [.put 1 1]), .snapshot 0]
+    let hist' : List Cmd := n.hist ++ [.exec false [.put 2 2]]
+    let m := installSinkClosed n hist' 2 [(1, 1), (2, 2)]
+    n.fp = true ∧ n.fpIdx = 1 ∧
+    (openNode (crash m)).live = [(1, 1), (2, 2)] ∧
+    (openNode (crash { m with fpIdx := 2 })).live = [(1, 1)] := by
+  decide
 
 /-! ### the step order matters, and it is the source's -/
 
@@ -263,31 +347,37 @@ theorem fingerprint_removed_before_swap (n : Node) (i : Nat) (d : Db) (hs : n.sn
 
 /-- **the fingerprint never lies**, whatever fails: after ANY history — including snapshots whose
 Persist failed after the checkpoint and snapshots whose finalizer failed after the install —
-a fingerprint that is present and matches the database file implies that the file IS the newest
-installed snapshot's database (this is what makes the fast path of `Open` sound) -/
+a fingerprint that is present, matches the database file AND was written for the newest installed
+snapshot (it records that snapshot's index, fix fa61aff) implies that the file IS that snapshot's
+database (this is what makes the fast path of `Open` sound); and a marker is never for a snapshot
+newer than the newest one -/
 theorem fingerprint_matches_newest_snapshot (hist : List C22.Op) :
     let n := C22.run {} hist
-    n.fp = true → ∃ i d, n.snap = some (i, d) ∧ n.dbFile = d := by
+    n.fp = true → (∀ i d, n.snap = some (i, d) → n.fpIdx = i → n.dbFile = d) ∧ n.fpIdx ≤ newestIdx n := by
   intro n hf
   have g := C22.good_run C22.good_init hist
-  exact g.1.fp_ok hf g.2.fileok
+  exact ⟨g.1.fp_ok hf g.2.fileok, g.1.fp_le hf⟩
 
 /-- the model's step lists ARE the extracted ones: `Persist`, `Sink.Close`, `fsmRestore`, `Swap` -/
 theorem code_snapshot_step_order :
     RqModel.Gen.StoreOrder.persistSteps = persistSteps.map PersistStep.code ∧
     RqModel.Gen.StoreOrder.sinkCloseSteps = sinkCloseSteps.map SinkStep.code ∧
     RqModel.Gen.StoreOrder.fingerprintSteps =
-      ["s.db.DBLastModified", "s.db.FileSize", "rsum.CRC32WithTiming", "fp.WriteToFile", "os.Rename"] := ⟨by decide, by decide, rfl⟩
+      ["s.db.DBLastModified", "s.db.FileSize", "rsum.CRC32WithTiming", "snapshot.LatestIndexTerm", "fp.WriteToFile", "os.Rename"] ∧
+    RqModel.Gen.StoreOrder.fingerprintRecordsSnapshot = ["SnapshotIndex: li", "SnapshotTerm: tm"] := ⟨by decide, by decide, rfl, rfl⟩
 
 theorem code_restore_step_order :
     RqModel.Gen.StoreOrder.restoreSteps = restoreSteps.map RestoreStep.code := by decide
 
 theorem code_open_step_order :
     RqModel.Gen.StoreOrder.openSteps =
-      ["snapshot.NewStore", "snapshotStore.Len", "fp.ReadFromFile", "fsutil.ModTimeSize", "rlog.New",
+      ["snapshot.NewStore", "snapshotStore.Len", "fp.ReadFromFile", "fsutil.ModTimeSize", "snapshotStore.LatestIndexTerm",
+       "snapshotStore.LatestIndexTerm", "rlog.New",
        "raft.ReadConfigJSON", "recoverNode", "createDBOnDisk", "os.RemoveAll", "raft.NewRaft"] ∧
     RqModel.Gen.StoreOrder.createDBSteps = ["sql.RemoveFiles", "sql.RemoveWALFiles", "sql.OpenSwappable"] ∧
-    RqModel.Gen.StoreOrder.swapSteps = swapSteps.map SwapStep.code := ⟨rfl, rfl, by decide⟩
+    RqModel.Gen.StoreOrder.swapSteps = swapSteps.map SwapStep.code ∧
+    RqModel.Gen.StoreOrder.openMarkerSnapshotCheck = ["fp.SnapshotIndex != 0", "li != fp.SnapshotIndex || tm != fp.SnapshotTerm"] :=
+  ⟨rfl, rfl, by decide, rfl⟩
 
 /-! ### non-vacuity -/
 
